@@ -4,7 +4,7 @@
 set -u
 name=$1; tier=${2:-quick}; seed=${3:-1}
 V=$(cd "$(dirname "$0")/.." && pwd)
-pid=$(python3 -c "import json;print(json.load(open('$V/seeded/$name/meta.json'))['property'])")
+pid=${4:-$(python3 -c "import json;print(json.load(open('$V/seeded/$name/meta.json'))['property'])")}
 wt=/tmp/trywt_$name; priv=/tmp/tryvf_$name
 git -C /repo worktree remove --force $wt >/dev/null 2>&1
 git -C /repo worktree add --detach $wt HEAD >/dev/null 2>&1 || exit 2
